@@ -2,6 +2,7 @@ import VlsModel.Model.Enforcement
 import VlsModel.Gen.FnEnforce
 import VlsModel.Lemmas.FnGen
 import VlsModel.Lemmas.EnforcementFn
+import VlsModel.Lemmas.HandlerFn
 import VlsModel.Lemmas.SecretsFn
 import VlsModel.Lemmas.SecretsSound
 import VlsModel.Props.C03
@@ -762,5 +763,95 @@ theorem C03_fn_window_after_revoke (c : Chan) (n : Nat) (e : ES)
         omega
 
 end SimpleState
+
+/-! ### Arms of `ChannelHandler::do_handle` (vls-protocol-signer/src/handler.rs), round 9
+
+The arms `ValidateRevocation`, `SignRemoteCommitmentTx`, `SignRemoteCommitmentTx2` as regenerated in
+`Gen/FnHandlerArms.lean` (see the section of the same name in `Props/C01Fn.lean`), run on a model channel: the reply
+class is that of the model's `revokeCp` / `signCp` request behind `Node::with_channel`'s refusal of a stub; an
+unparsable secret / point crashes the handler before the channel is touched; the counterparty's HTLC lists reach
+`sign_counterparty_commitment_tx(_phase2)` flipped (first component of `extract_htlcs` as `offered`). -/
+section HandlerArms
+open VlsModel.Secrets VlsModel.Lemmas.HandlerFn
+open VlsModel.Gen.FnHandlerArms
+
+/-- `ValidateRevocation` -/
+theorem C03_fn_handle_validate_revocation (F : Nat → Bytes → Bytes) (fs : Nat → Option (Bytes × Nat)) (c : Chan)
+    (ver n wire : Nat) :
+    let g := ChannelHandler.handle_validate_revocation fs readyChannel
+               (fun ch num (sk : Bytes × Nat) => resM (revokeCp F ch num sk.1 sk.2).out.res ()) (handler c ver) ⟨n, wire⟩
+    (fs wire = none → g = .error .panic)
+    ∧ (∀ s pt, fs wire = some (s, pt) → (chanStep F c (.revokeCp n s pt)).out.res = hcls g) := by
+  refine ⟨?_, ?_⟩
+  · intro h
+    simp [ChannelHandler.handle_validate_revocation, h, Rs.unwrap, Rs.panic]
+  · intro s pt h
+    cases hs : c.slot <;>
+      simp [ChannelHandler.handle_validate_revocation, h, Rs.unwrap, handler, readyChannel, hs, chanStep, needReady, fail]
+    generalize (revokeCp F c n s pt).out.res = r
+    cases r <;> simp [resM, hcls]
+
+/-- `SignRemoteCommitmentTx2` -/
+theorem C03_fn_handle_sign_remote_commitment_tx2 (F : Nat → Bytes → Bytes) (pfs : Nat → Option Nat)
+    (ex : Nat → List Nat × List Nat) (I : Nat → Nat → Nat → List Nat → List Nat → Nat)
+    (P : Nat → Nat → Nat → List Nat → List Nat → Bool) (c : Chan) (ver : Nat)
+    (m : SignRemoteCommitmentTx2 Nat Nat) :
+    let g := ChannelHandler.handle_sign_remote_commitment_tx2 (Signature := Nat) pfs ex readyChannel
+               (fun ch pt num fee tl tr off rcv =>
+                  resM (signCp ch num pt (I fee tl tr off rcv) (P fee tl tr off rcv)).out.res (0, ([] : List Nat)))
+               (fun s => ⟨s, 1⟩) (fun _ => 0) (handler c ver) m
+    (pfs m.remote_per_commitment_point = none → g = .error .panic)
+    ∧ (∀ pt, pfs m.remote_per_commitment_point = some pt →
+        (chanStep F c (.signCp m.commitment_number pt
+            (I m.feerate m.to_local_value_sat m.to_remote_value_sat (ex m.htlcs).1 (ex m.htlcs).2)
+            (P m.feerate m.to_local_value_sat m.to_remote_value_sat (ex m.htlcs).1 (ex m.htlcs).2))).out.res = hcls g) := by
+  refine ⟨?_, ?_⟩
+  · intro h
+    simp [ChannelHandler.handle_sign_remote_commitment_tx2, h, Rs.unwrap, Rs.panic]
+  · intro pt h
+    cases hs : c.slot <;>
+      simp [ChannelHandler.handle_sign_remote_commitment_tx2, h, Rs.unwrap, handler, readyChannel, hs, chanStep,
+        needReady, fail]
+    generalize (signCp c m.commitment_number pt _ _).out.res = r
+    cases r <;> simp [resM, hcls]
+
+/-- `SignRemoteCommitmentTx` -/
+theorem C03_fn_handle_sign_remote_commitment_tx (F : Nat → Bytes → Bytes) (pfs : Nat → Option Nat)
+    (ex : Nat → List Nat × List Nat) (pin : Nat → Nat) (wit : Nat → List Nat) (tin : Nat → Nat)
+    (I : Nat → List Nat → Nat → List Nat → List Nat → Nat)
+    (P : Nat → List Nat → Nat → List Nat → List Nat → Bool) (c : Chan) (ver : Nat)
+    (m : SignRemoteCommitmentTx Nat Nat Nat) :
+    let g := ChannelHandler.handle_sign_remote_commitment_tx (Signature := Nat) pin wit tin pfs ex readyChannel
+               (fun ch tx ws pt num fee off rcv =>
+                  resM (signCp ch num pt (I tx ws fee off rcv) (P tx ws fee off rcv)).out.res 0)
+               (fun s => ⟨s, 1⟩) (handler c ver) m
+    (pfs m.remote_per_commitment_point = none → g = .error .panic)
+    ∧ (∀ pt, pfs m.remote_per_commitment_point = some pt →
+        (chanStep F c (.signCp m.commitment_number pt
+            (I (tin m.tx) (wit (pin m.psbt)) m.feerate (ex m.htlcs).1 (ex m.htlcs).2)
+            (P (tin m.tx) (wit (pin m.psbt)) m.feerate (ex m.htlcs).1 (ex m.htlcs).2))).out.res = hcls g) := by
+  refine ⟨?_, ?_⟩
+  · intro h
+    simp [ChannelHandler.handle_sign_remote_commitment_tx, h, Rs.unwrap, Rs.panic]
+  · intro pt h
+    cases hs : c.slot <;>
+      simp [ChannelHandler.handle_sign_remote_commitment_tx, h, Rs.unwrap, handler, readyChannel, hs, chanStep,
+        needReady, fail]
+    generalize (signCp c m.commitment_number pt _ _).out.res = r
+    cases r <;> simp [resM, hcls]
+/-- non-vacuity: on a fresh ready channel `SignRemoteCommitmentTx2` for commitment 0 is signed, on a stub it is refused -/
+example :
+    let m : SignRemoteCommitmentTx2 Nat Nat :=
+      { remote_per_commitment_point := 5, commitment_number := 0, feerate := 253, to_local_value_sat := 1,
+        to_remote_value_sat := 2, htlcs := 0 }
+    let ext := fun (ch : Chan) (pt num _fee _tl _tr : Nat) (_o _r : List Nat) =>
+      resM (signCp ch num pt 7 true).out.res (0, ([] : List Nat))
+    hcls (ChannelHandler.handle_sign_remote_commitment_tx2 (Signature := Nat) (fun p => some p) (fun _ => ([], []))
+            readyChannel ext (fun s => ⟨s, 1⟩) (fun _ => 0) (handler { slot := .ready } 6) m) = .ok
+    ∧ hcls (ChannelHandler.handle_sign_remote_commitment_tx2 (Signature := Nat) (fun p => some p) (fun _ => ([], []))
+            readyChannel ext (fun s => ⟨s, 1⟩) (fun _ => 0) (handler { } 6) m) = .errInvalid := by
+  decide
+
+end HandlerArms
 
 end VlsModel.Props.C03Fn
